@@ -6,6 +6,7 @@ import OmplModel.Proofs.DiscReal
 import OmplModel.Proofs.KPIECE1
 import OmplModel.Proofs.LBKPIECE1
 import OmplModel.Proofs.LBKPIECE1Path
+import OmplModel.Proofs.GridN
 /-!
 # C13 — grid discretizations track cells, neighbours, borders and components exactly
 
@@ -520,5 +521,63 @@ example (cfg : LBKPIECE1.Cfg S α) (script : List (LBKPIECE1.Draw S α)) :
     (LBKPIECE1.solve cfg #[] script).status = .invalidStart := rfl
 
 end Lbkpiece
+
+/-! ## plain GridN with the split protocol (createCell / add / remove-without-add / remove)
+
+Model `OmplModel.GridN` (Model/GridN.lean).  `createCell` updates the counters of the adjacent cells of the grid at once;
+the cell it returns is not yet in the grid ("pending"); `remove` on it -- without `add` -- is the documented way to undo
+that.  Histories: `run cfg ops` over `create x d` (absent coordinate, no pending cell), `add`, `abandon`
+(`remove(pending)` + `destroyCell`), `rm x` (present cell, no pending cell). -/
+section PlainGridN
+open OmplModel.GridN
+
+/-- **The counters are exact after every history**, including histories that create a cell next to present cells and
+give it back without ever adding it: every cell of the grid has
+`neighbors = #cells of the grid one step away + #boundary dimensions + (1 if the created-not-yet-added cell is one step
+away)` and `border ↔ neighbors < interiorCellNeighborsLimit_`; the pending cell itself carries
+`#cells of the grid one step away + #boundary dimensions`.  So what the count counts is the created-and-not-removed cells
+(of the grid, or pending) one step away, plus the bounds; whenever no cell is pending it is exactly the property's
+"actual neighbours and the configured bounds".  For every dimension, bounds and limit. -/
+theorem gridN_counts_exact (cfg : Cfg) (ops : List GridN.Op) (hv : ∀ op ∈ ops, op.valid cfg.dim) :
+    let g := GridN.run cfg ops
+    (∀ c ∈ g.cells,
+      c.nbrs = (neighbors cfg.dim g.cells c.coord).length + boundaryDims cfg c.coord + pend cfg g c.coord ∧
+      (c.border = true ↔ c.nbrs < cfg.limit)) ∧
+    (g.pending = none → ∀ c ∈ g.cells,
+      c.nbrs = (neighbors cfg.dim g.cells c.coord).length + boundaryDims cfg c.coord) ∧
+    (∀ p, g.pending = some p → has g.cells p.coord = false ∧
+      p.nbrs = (neighbors cfg.dim g.cells p.coord).length + boundaryDims cfg p.coord ∧
+      (p.border = true ↔ p.nbrs < cfg.limit)) := by
+  intro g
+  have h := GridN.run_inv cfg ops hv
+  refine ⟨?_, ?_, ?_⟩
+  · intro c hc
+    refine ⟨by rw [h.count c hc, cnt_eq_neighbors], ?_⟩
+    rw [h.border c hc]; simp
+  · intro hp c hc
+    have := h.count c hc
+    unfold pend at this
+    rw [hp] at this
+    simp only [Nat.add_zero] at this
+    rw [this, cnt_eq_neighbors]
+  · intro p hp
+    obtain ⟨h1, _, h3, h4⟩ := h.pending p hp
+    refine ⟨h1, by rw [h3, cnt_eq_neighbors], ?_⟩
+    rw [h4]; simp
+
+/-! non-vacuity: the seeded history (a plus without its west arm; the west arm created and abandoned twice) keeps the
+centre at 3 neighbours, a border cell at the default limit 4 -/
+def cfgN : Cfg := { dim := 2, limit := 4, ltE := fun _ _ => false, ltI := fun _ _ => false, ev := fun c => c.data }
+def opsN : List GridN.Op :=
+  [.create [0, 0] 1, .add, .create [0, 1] 2, .add, .create [0, -1] 3, .add, .create [1, 0] 4, .add,
+   .create [-1, 0] 5, .abandon, .create [-1, 0] 6, .abandon]
+example : ∀ op ∈ opsN, op.valid cfgN.dim := by simp [opsN, GridN.Op.valid, cfgN]
+example : ((GridN.run cfgN opsN).cells.map (fun c => (c.coord, c.nbrs, c.border))) =
+    [([0, 0], 3, true), ([0, 1], 1, true), ([0, -1], 1, true), ([1, 0], 1, true)] := by decide
+/-- while the west arm is pending the centre counts it (4: interior) -/
+example : ((GridN.run cfgN (opsN.take 9)).cells.map (fun c => (c.coord, c.nbrs, c.border))).head? =
+    some ([0, 0], 4, false) := by decide
+
+end PlainGridN
 
 end OmplModel.Props.C13
